@@ -29,7 +29,7 @@ def main():
     demos = [f for f in os.listdir(demodir) if f.endswith(".go")]
     head = open(os.path.join(demodir, demos[0])).read(600)
     m = re.search(r"copy to (\S+)", head)
-    target = m.group(1).lstrip("./")
+    target = m.group(1).strip("<>").lstrip("./")
     m2 = re.search(r"run[^:]*:\s*(.*)", head)
     cmd = m2.group(1).strip()
     cmd = re.sub(r"^(GO\w+=\S+\s+)+", "", cmd)
